@@ -585,6 +585,19 @@ func ruleEOFIdentity(c *core.Ctx) {
 				}
 			}
 			ast.Inspect(fn.Decl.Body, func(n ast.Node) bool {
+				// return f(...) hands f's error up directly
+				if rs, ok := n.(*ast.ReturnStmt); ok && len(rs.Results) == 1 {
+					if call, ok := ast.Unparen(rs.Results[0]).(*ast.CallExpr); ok {
+						if callee := core.Callee(info, call); callee != nil {
+							if cf := c.Prog.FuncOf(callee); cf != nil && !seen[cf] && cf.Key != "pdf.Wrap" {
+								seen[cf] = true
+								chain = append(chain, cf)
+								next = append(next, cf)
+							}
+						}
+					}
+					return true
+				}
 				as, ok := n.(*ast.AssignStmt)
 				if !ok || len(as.Rhs) != 1 {
 					return true
